@@ -106,9 +106,48 @@ class NP(shim.SymNumpy):
         return True
 
 
+RESET_HOOKS = []  # run at every ctx.reset, i.e. before each explored path / translator validation
+
+
+def track_module_state(mod):
+    """Every explored path models a fresh process: module-level mutable containers (caches, registries) of the analysed
+    module are put back to their import-time content before each path.  State that one object leaves behind for the
+    next one *within* a path is what the sequence cases examine."""
+    import copy
+
+    if getattr(mod, "_symx_state_tracked", False):
+        return
+    snap = {}
+    for name, val in vars(mod).items():
+        if name.startswith("__"):
+            continue
+        if isinstance(val, (list, dict, set)):
+            try:
+                snap[name] = copy.copy(val)
+            except Exception:
+                pass
+
+    def restore():
+        for name, val in snap.items():
+            cur = getattr(mod, name, None)
+            if type(cur) is type(val):
+                cur.clear()
+                (cur.extend if isinstance(cur, list) else cur.update)(val)
+            else:
+                setattr(mod, name, copy.copy(val))
+        for name, val in list(vars(mod).items()):  # containers created after import (there are none at import time)
+            if not name.startswith("__") and name not in snap and isinstance(val, (list, dict, set)) and not name.startswith("_symx"):
+                val.clear()
+
+    mod._symx_state_tracked = True
+    RESET_HOOKS.append(restore)
+
+
 def load():
     np_ = NP()
     ip = sym_module("eko.interpolation", np=np_)
+    track_module_state(ip)
+    _install_memo()
     return ip, np_
 
 
@@ -139,6 +178,8 @@ def _install_memo():
     def reset():
         _MEMO.clear()
         inner()
+        for h in RESET_HOOKS:
+            h()
 
     ctx.reset = reset
 
@@ -439,6 +480,98 @@ def case_reinterp(log, mode, n, deg, free, generic=0):
     log.path_stats(pm)
     if generic:
         _validate_reinterp(log, ip, n, deg, mode)
+
+
+def case_sequence(log, mode, n, deg, i, deg2=None, mode_N=False):
+    """State across objects: a dispatcher A is built on the grid x, then a dispatcher B in the same process on the grid y
+    that equals x except at node i, where y_i is a free symbol between the neighbouring nodes (it may be arbitrarily
+    close to x_i, or equal to it); deg2: B has another degree (then on the identical grid).  B must be the basis of ITS
+    grid (cardinal at its nodes, partition of unity / polynomial reproduction next to y_i), and A must be unchanged."""
+    ip, _np = load()
+    log.encode(ip.InterpolatorDispatcher.__init__, ip.XGrid.__init__, ip.XGrid.__eq__, ip.BasisFunction.__init__, ip.BasisFunction.evaluate_x, ip.evaluate_x)
+    eps = ip._atol_eps
+    dB = deg if deg2 is None else deg2
+    kw = {"mode": mode, "n": n, "deg": deg, "i": i, "deg2": deg2, "mode_N": mode_N}
+    key = "InterpolatorDispatcher:state-across-instances"
+
+    def run():
+        try:
+            xs, us, xg, A, ax = build(ip, n, deg, mode, mode_N)
+        except ValueError as e:
+            _valid_rejected(log, e, n, deg, mode, mode_N)
+            return
+        ys = list(xs)
+        if deg2 is None:
+            y = SR.var("y%d" % i)
+            ys[i] = y
+            lo, hi = max(i - 1, 0), min(i + 1, n - 1)
+            if lo < i:
+                assume(y - xs[lo], ">0")
+            else:
+                assume(y, ">0" if mode else ">=0")
+            if hi > i:
+                assume(xs[hi] - y, ">0")
+        yg = ip.XGrid(list(ys), log=mode)
+        vs = list(yg.grid)
+        if mode:
+            for a, b in zip(ys, vs):
+                if not any(a is c for c, _ in ax.pairs):
+                    ax.add(a, b)
+        for a, b in zip(vs, vs[1:]):
+            assume(b - a - eps, ">0")
+        B = ip.InterpolatorDispatcher(yg, dB, mode_N=mode_N)
+        cands = _seq_candidates(n, i)
+        smp = _seq_sampler(n, mode, i)
+        # B cardinal at its own nodes
+        for k in range(n):
+            vals = [bf.evaluate_x(ys[k]) for bf in B]
+            for j, v in enumerate(vals):
+                ver = prove_zero(v - (1 if j == k else 0), "second dispatcher (built after one on a neighbouring grid): p_%d(y_%d) == %d" % (j, k, j == k))
+                decide(log, ver, key=key, replay=(MOD, "replay_sequence", kw), sampler=smp, candidates=cands)
+        # B: partition of unity / reproduction on the interval(s) touching y_i
+        for k in sorted({max(i - 1, 0), min(i, n - 2)}):
+            x, u = point_in("xe%d" % k, k, ys, vs, mode, ax, eps, n)
+            vals = [bf.evaluate_x(x) for bf in B]
+            for m in range(dB + 1):
+                tot = -(u**m)
+                for v, uj in zip(vals, vs):
+                    tot = tot + v * uj**m
+                ver = prove_zero(tot, "second dispatcher: sum_j p_j(x) u_j^%d == u(x)^%d on (y%d, y%d]" % (m, m, k, k + 1))
+                decide(log, ver, key=key, replay=(MOD, "replay_sequence", kw), sampler=smp, candidates=cands)
+        # A untouched by the construction of B
+        for k in sorted({i, 0, n - 1}):
+            vals = [bf.evaluate_x(xs[k]) for bf in A]
+            for j, v in enumerate(vals):
+                ver = prove_zero(v - (1 if j == k else 0), "first dispatcher after the second was built: p_%d(x_%d) == %d" % (j, k, j == k))
+                decide(log, ver, key=key, replay=(MOD, "replay_sequence", kw), sampler=smp, candidates=cands)
+        log.twin("two sorted grids")
+        log.collect_ctx()
+
+    _r, pm = explore(run, max_paths=1000)
+    log.path_stats(pm)
+
+
+def _seq_candidates(n, i):
+    """grid reaching x = 1e-9; the second grid moves node i by a few 1e-9 (i = 0) resp. by 5e-9 / a relative 5e-6"""
+    xs = [Fraction(float(10 ** (-9 * (n - 1 - k) / (n - 1)))).limit_denominator(10**15) for k in range(n)]
+    out = []
+    for y in ([xs[0] * 3] if i == 0 else [xs[i] - min(Fraction(5, 10**9), (xs[i] - xs[i - 1]) / 2), xs[i] * (1 - Fraction(5, 10**6))]):
+        p = {"x%d" % k: v for k, v in enumerate(xs)}
+        p["y%d" % i] = y
+        out.append(p)
+    return out
+
+
+def _seq_sampler(n, mode, i):
+    def s(rng):
+        p = _sampler(n, mode)(rng)
+        xs = [p["x%d" % k] for k in range(n)]
+        lo = xs[i - 1] if i > 0 else xs[0] / 2
+        hi = xs[i + 1] if i < n - 1 else xs[-1]
+        p["y%d" % i] = lo + (hi - lo) * Fraction(rng.randint(100, 900), 1000)
+        return p
+
+    return s
 
 
 class _Reached(Exception):
@@ -810,6 +943,49 @@ def replay_accept(point, mode, n, deg, mode_N=False):
     return None
 
 
+def replay_sequence(point, mode, n, deg, i, deg2=None, mode_N=False):
+    """real code: dispatcher on x, then (same process) dispatcher on y; the second one is compared with the defining
+    properties of the Lagrange basis of ITS grid, the first one re-checked afterwards"""
+    import numpy as np
+    import eko.interpolation as ip
+
+    g = _nodes(point, n, mode, min_gap=1e-13)
+    if g is None:
+        return None
+    xs, us = g
+    ys = list(xs)
+    if deg2 is None:
+        if ("y%d" % i) not in point:
+            return None
+        ys[i] = _f(point["y%d" % i])
+    q = dict(point)
+    q.update({"x%d" % k: v for k, v in enumerate(ys)})
+    h = _nodes(q, n, mode, min_gap=1e-13)
+    if h is None:
+        return None
+    ys, vs = h
+    dB = deg if deg2 is None else deg2
+    A = ip.InterpolatorDispatcher(ip.XGrid(xs, log=mode), deg, mode_N=mode_N)
+    B = ip.InterpolatorDispatcher(ip.XGrid(ys, log=mode), dB, mode_N=mode_N)
+    for name, D, nodes, ws, d in (("second", B, ys, vs, dB), ("first", A, xs, us, deg)):
+        for k in range(n):
+            for j in range(n):
+                got = float(D[j].evaluate_x(nodes[k]))
+                if abs(got - (j == k)) > 1e-8 * max(1.0, _scale(ws, ws[k], d, 0)):
+                    return {"detail": "log=%s: dispatcher on %r (degree %d) then dispatcher on %r (degree %d) in the same process: the %s one has p_%d(node_%d) = %r, expected %d"
+                                      % (mode, xs, deg, ys, dB, name, j, k, got, j == k)}
+        for k in range(n - 1):
+            u = 0.5 * (ws[k] + ws[k + 1])
+            x = float(np.exp(u)) if mode else u
+            ps = [float(bf.evaluate_x(x)) for bf in D]
+            for m in range(d + 1):
+                got = sum(p * wj**m for p, wj in zip(ps, ws))
+                if abs(got - u**m) > 1e-8 * _scale(ws, u, d, m):
+                    return {"detail": "log=%s: dispatcher on %r then on %r in the same process: the %s one gives sum_j p_j(x) u_j^%d = %r at x=%r, expected %r"
+                                      % (mode, xs, ys, name, m, got, x, u**m)}
+    return None
+
+
 def replay_reject_degree(point, mode, n):
     import numpy as np
     import eko.interpolation as ip
@@ -862,6 +1038,8 @@ def main():
         "evaluation points: one symbolic point per grid interval (x_k, x_{k+1}] plus every node; target grids: 1-2 symbolic targets anywhere in [x_0, x_{n-1}] "
         "(length != n) and length-n target grids equal to the nodes except at 1-2 positions where the target is symbolic between the neighbouring nodes",
         "node spacing (in the interpolation variable x or ln x) above evaluate_x's absolute tolerance 10*eps = 2.2e-15",
+        "state across objects: two dispatchers built one after the other in the same process, the second grid equal to the first except at one node whose position is a "
+        "free symbol between its neighbours (or identical grid, other degree); n = 3..4 (thorough: up to 6); every explored path otherwise starts from the import-time module state",
         "rejections: degree a symbolic integer in [-3, n+3] for n = 2..5 nodes; XGrid on 0..3 (thorough: 4) positive symbolic points in arbitrary order",
     ]
     chk.out_of_claim = [
@@ -895,6 +1073,13 @@ def main():
             chk.case("reject.degree.%s.n%d" % (tag, n), case_reject_degree, mode=mode, n=n)
         for n in range(0, 5 if thorough else 4):
             chk.case("reject.duplicates.%s.n%d" % (tag, n), case_reject_duplicates, mode=mode, n=n)
+    seqs = [(True, 3, 1, 0, None, False), (False, 4, 2, 0, None, False), (True, 4, 2, 1, None, True), (True, 4, 2, 0, 1, False)]
+    if thorough:
+        seqs += [(True, 5, 3, 0, None, False), (False, 5, 2, 2, None, True), (True, 6, 3, 5, None, False), (False, 3, 1, 2, None, False), (False, 5, 3, 0, 2, False),
+                 (True, 6, 2, 1, None, False)]
+    for mode, n, d, i, d2, mN in seqs:
+        chk.case("sequence.%s.n%d.deg%d.node%d%s" % ("log" if mode else "lin", n, d, i, "" if d2 is None else ".deg%d" % d2), case_sequence,
+                 mode=mode, n=n, deg=d, i=i, deg2=d2, mode_N=mN)
     chk.case("basis.rawinput.n4.deg2", case_basis, mode=True, n=4, deg=2, mode_N=True, raw_input=True)
     import eko.interpolation  # noqa: F401  imported once here (fresh per run); the forked case workers rebind its globals
     clear_markers()
